@@ -49,6 +49,23 @@ Theorem C20_error_drops_connection : forall (R : Type) conn (outs : list (outcom
 Proof. exact error_drops_connection. Qed.
 Print Assumptions C20_error_drops_connection.
 
+(* Successive calls on one client are independent: the reply (and the number of deliveries) of the k-th call is a
+   function of the k-th call's own attempts only -- not of the connection left by earlier calls, not of any
+   earlier or later reply.  (The model is value-semantic: a returned reply is never touched again; the harness's
+   retention check `content-changed-after-later-call` is the implementation-side counterpart.) *)
+Theorem C20_calls_independent : forall (R : Type) (calls : list (list (outcome R))) conn,
+  map c_result (call_seq conn calls) = map (fun outs => c_result (call false outs)) calls /\
+  map c_deliveries (call_seq conn calls) = map (fun outs => c_deliveries (call false outs)) calls.
+Proof. exact call_seq_results. Qed.
+Print Assumptions C20_calls_independent.
+
+Theorem C20_earlier_results_unaffected : forall (R : Type) conn conn' (pre pre' : list (list (outcome R))) c post post',
+  length pre = length pre' ->
+  nth_error (map c_result (call_seq conn (pre ++ c :: post))) (length pre) = Some (c_result (call false c)) /\
+  nth_error (map c_result (call_seq conn' (pre' ++ c :: post'))) (length pre) = Some (c_result (call false c)).
+Proof. exact earlier_results_unaffected. Qed.
+Print Assumptions C20_earlier_results_unaffected.
+
 (* ---------- failure and success reporting, from the handler's point of view ---------- *)
 (* [isnull r]: the reply r is encoded as JSON null; [denull]: what the server methods do to a nil byte-slice
    reply (faf0201); the handler's error is wrapped so that its message is never empty (ebb9c0a). *)
@@ -204,7 +221,8 @@ Example C20_example :
   c_result (call_attempts bytes_null bytes_denull false [APass (HErr true (Some [])); AStallReply; ADown; APass (HOk (Some []))]) = None /\
   new_peer [Good 48] [Good 97; Bad 255; Bad 254; Good 98; Bad 128] [Bad 237; Bad 160; Bad 128] =
     mkPeer [Good 97; Good 65533; Good 98; Good 65533] [Good 48] [Good 65533] 0 /\
-  built_block ex_built_block /\ through_block ex_built_block = Some (strip_block ex_built_block).
+  built_block ex_built_block /\ through_block ex_built_block = Some (strip_block ex_built_block) /\
+  map c_result (call_seq false [[CallFail true; Ok 1]; [Ok 2]; [DialFail; DialFail; DialFail]; [Ok 4]]) = [Some 1; Some 2; None; Some 4].
 Proof.
   repeat match goal with |- _ /\ _ => split end; try (vm_compute; reflexivity).
   unfold built_block, ex_built_block. cbn [bl_body bo_itxs bo_receipts bl_sigs norm_slice]. repeat split.
